@@ -25,7 +25,16 @@ func (h *hist) exec(op Op) {
 	}
 	g := h.gen(op)
 	skip := func(why string) { h.out.Probe("skipped:" + why) }
+	defer func() {
+		if h.tx != nil && h.txErr && h.viol == nil {
+			h.end(false)
+		}
+	}()
 	switch op.Kind {
+	case "begin":
+		h.begin()
+	case "end":
+		h.end(op.Commit)
 	case "checkall":
 		h.checkAll()
 	case "insert":
@@ -771,6 +780,18 @@ func (h *hist) insertMany(t *tinfo, g *gen, op Op) {
 	}
 	t.rows = t.rows[:nBefore]
 	if h.viol != nil {
+		return
+	}
+	if h.tx != nil {
+		// part of the open transaction, which decides its fate
+		args := append([]reflect.Value{h.db()}, rows...)
+		_, err := h.call(name, f, args...)
+		h.note("%s(%d rows) in the open transaction -> err=%v", name, len(rows), err)
+		if h.faulted() || !h.judgeErr(name, err) {
+			return
+		}
+		t.rows = append(t.rows, rows...)
+		h.out.Keys = append(h.out.Keys, fmt.Sprintf("@call:insertmany-in-tx/%s/%d", t.Name, len(rows)))
 		return
 	}
 	tx, err := h.sdb.Begin()
